@@ -6,6 +6,7 @@
 #include <chrono>
 #include <condition_variable>
 #include <mutex>
+#include <igris/util/verif_point.h>
 
 namespace igris
 {
@@ -19,8 +20,11 @@ namespace igris
     public:
         inline void wait() const
         {
+            IGRIS_VERIF_POINT_OBJ("event.wait.lock", this);
             std::unique_lock<std::mutex> _lock(m_mutex);
+            IGRIS_VERIF_POINT_OBJ("event.wait.cv", this);
             m_condition.wait(_lock, [&]() -> bool { return m_bFlag; });
+            IGRIS_VERIF_POINT_OBJ("event.wait.unlock", this);
         }
 
         template <typename R, typename P>
@@ -36,12 +40,15 @@ namespace igris
         inline bool signal()
         {
             bool bWasSignalled;
+            IGRIS_VERIF_POINT_OBJ("event.signal.lock", this);
             m_mutex.lock();
             bWasSignalled = m_bFlag;
             m_bFlag = true;
+            IGRIS_VERIF_POINT_OBJ("event.signal.notify", this);
             // notify while the mutex is held: a waiter cannot leave wait()
             // (and destroy this event) before this call has finished
             m_condition.notify_all();
+            IGRIS_VERIF_POINT_OBJ("event.signal.unlock", this);
             m_mutex.unlock();
             return bWasSignalled == false;
         }
